@@ -124,15 +124,25 @@ def scenario_fns(m, sm, inst):
     n = sum(splits)
     view = lambda: m.select(nodes=[0])
 
+    # "no_inputs": the module has no stimulus or clamp at all and the duration comes from t_max alone (the code path
+    # that pads/masks the scan differs when there is nothing to pad)
+    noin = bool(inst.get("no_inputs"))
+    tm = lambda k: {"t_max": (k - 1) * 0.025 + 0.01}
+
     def full(arrays, stim, ckpt=None):
+        if noin:
+            return jx.integrate(m, param_state=sm.pstate(arrays), return_states=True, checkpoint_lengths=ckpt, **tm(n), **kw)
         ds = view().data_stimulate(stim, None)
         return jx.integrate(m, param_state=sm.pstate(arrays), data_stimuli=ds, return_states=True, checkpoint_lengths=ckpt, **kw)
 
     def split(arrays, stim):
         outs, st, o = [], None, 0
         for k in splits:
-            ds = view().data_stimulate(stim[:, o:o + k], None)
-            r, st = jx.integrate(m, param_state=sm.pstate(arrays), data_stimuli=ds, all_states=st, return_states=True, **kw)
+            if noin:
+                r, st = jx.integrate(m, param_state=sm.pstate(arrays), all_states=st, return_states=True, **tm(k), **kw)
+            else:
+                ds = view().data_stimulate(stim[:, o:o + k], None)
+                r, st = jx.integrate(m, param_state=sm.pstate(arrays), data_stimuli=ds, all_states=st, return_states=True, **kw)
             outs.append(r); o += k
         return outs, st
 
@@ -144,7 +154,7 @@ def scenario_fns(m, sm, inst):
         rec = lambda s: jnp.stack([s[st][int(i)] for st, i in zip(recs.state.to_numpy(), recs.rec_index.to_numpy())])
         cols = [rec(states)]
         for t in range(n):
-            states = step_fn(states, params, {"i": stim[:, t]}, {"i": np.asarray([0])}, 0.025)
+            states = step_fn(states, params, {}, {}, 0.025) if noin else step_fn(states, params, {"i": stim[:, t]}, {"i": np.asarray([0])}, 0.025)
             cols.append(rec(states))
         return jnp.stack(cols, axis=1), states
     return full, split, manual
@@ -295,6 +305,12 @@ def families():
                 if quick and not (sp == (2, 1)):
                     ck = ck[:2]
                 insts.append({"module": mod, "solver": solver, "voltage_solver": vs, "splits": list(sp), "ckpts": ck})
+    # no stimulus / clamp at all (duration from t_max), incl. padded layouts
+    for mod in (["comp_hh", "cell_irreg"] if quick else ["comp_hh", "cell_irreg", "net2_tanh", "branch2_hh"]):
+        for (solver, vs) in (combos[:1] if quick else combos[:3]):
+            for sp in ([(2, 1)] if quick else [(2, 1), (1, 2), (2, 2)]):
+                n = sum(sp)
+                insts.append({"module": mod, "solver": solver, "voltage_solver": vs, "splits": list(sp), "ckpts": [[n], [n + 1], [2, 2], [3, 3]], "no_inputs": True})
     return insts
 
 
